@@ -1,5 +1,6 @@
 /* mc/h_futex_e1.c — C17 E1 (emission, single thread, REAL pthreads, no scheduler): which cell does the translated
- * wait examine?  Cells at addr and addr+16 hold different values; timeout 0.  Return code 1 = "not equal" (the examined
+ * wait examine?  Cells at addr and addr+16 hold different values (no byte palindromes: a missing or doubled byte reversal in the
+ * big-endian configuration changes the outcome too); timeout 0.  Return code 1 = "not equal" (the examined
  * cell differs from expected), 2 = "timed out" (the examined cell equals expected).  Prints one line per probe. */
 #include <stdio.h>
 #include <stdlib.h>
@@ -11,17 +12,20 @@ int main(void) {
     mInstance inst;
     const U32 addr = 64;
     mInstantiate(&inst, NULL);
-    m_init32(&inst, addr, 0x11111111u); m_init32(&inst, addr + 4, 0x01010101u);
-    m_init32(&inst, addr + 16, 0x22222222u); m_init32(&inst, addr + 20, 0x02020202u);
+    m_init32(&inst, addr, 0x11223344u); m_init32(&inst, addr + 4, 0x01020304u);
+    m_init32(&inst, addr + 16, 0x55667788u); m_init32(&inst, addr + 20, 0x05060708u);
     /* expected = value of the cell at addr (A) or at addr+16 (B) */
-    printf("w32o0 expA %u\n", m_w32o0(&inst, addr, 0x11111111u, 0));
-    printf("w32o0 expB %u\n", m_w32o0(&inst, addr, 0x22222222u, 0));
-    printf("w32o16 expA %u\n", m_w32o16(&inst, addr, 0x11111111u, 0));
-    printf("w32o16 expB %u\n", m_w32o16(&inst, addr, 0x22222222u, 0));
-    printf("w64o0 expA %u\n", m_w64o0(&inst, addr, 0x0101010111111111ull, 0));
-    printf("w64o0 expB %u\n", m_w64o0(&inst, addr, 0x0202020222222222ull, 0));
-    printf("w64o16 expA %u\n", m_w64o16(&inst, addr, 0x0101010111111111ull, 0));
-    printf("w64o16 expB %u\n", m_w64o16(&inst, addr, 0x0202020222222222ull, 0));
+    printf("w32o0 expA %u\n", m_w32o0(&inst, addr, 0x11223344u, 0));
+    printf("w32o0 expB %u\n", m_w32o0(&inst, addr, 0x55667788u, 0));
+    printf("w32o16 expA %u\n", m_w32o16(&inst, addr, 0x11223344u, 0));
+    printf("w32o16 expB %u\n", m_w32o16(&inst, addr, 0x55667788u, 0));
+    /* the 64-bit probes examine cells written by a 64-bit store: in the forced big-endian configuration an access is reversed at its own
+       width, so two 32-bit stores do not compose to the little-endian 64-bit value there (an artefact of the emulation, not of the code) */
+    m_init64(&inst, addr, 0x0102030411223344ull); m_init64(&inst, addr + 16, 0x0506070855667788ull);
+    printf("w64o0 expA %u\n", m_w64o0(&inst, addr, 0x0102030411223344ull, 0));
+    printf("w64o0 expB %u\n", m_w64o0(&inst, addr, 0x0506070855667788ull, 0));
+    printf("w64o16 expA %u\n", m_w64o16(&inst, addr, 0x0102030411223344ull, 0));
+    printf("w64o16 expB %u\n", m_w64o16(&inst, addr, 0x0506070855667788ull, 0));
     /* nobody waits: notify returns 0 whatever the offset, and the map must be empty again */
     printf("no0 %u\n", m_no0(&inst, addr, 1));
     printf("no16 %u\n", m_no16(&inst, addr, 1));
